@@ -45,7 +45,8 @@ Theorem C16_save_behaviour :
        else if hits_encode j fault then (Raised, Some [])
        else (Done, Some (j_new j))) /\
     run_save j save_order_json fault old =
-      (if hits_build j fault || hits_encode j fault then (Raised, old) else (Done, Some (j_new j))).
+      (if hits_build j fault || hits_encode j fault || hits_bytes j fault then (Raised, old)
+       else (Done, Some (j_new j))).
 Proof.
   intros j fault old. split.
   - apply kind2_behaviour. reflexivity.
@@ -77,7 +78,7 @@ Print Assumptions C16_idempotent.
 (* recorded witness: the order of the code before the first repair (open, then build)
    empties the target on the first unserialisable element *)
 Example C16_legacy_order_truncates :
-  run_save {| j_nbuild := 1; j_nenc := 0; j_nns := 0; j_own := true; j_new := [9] |}
+  run_save {| j_nbuild := 1; j_nenc := 0; j_nns := 0; j_nbytes := 0; j_own := true; j_new := [9] |}
            legacy_order (Some 0%nat) (Some [1; 2; 3])
   = (Raised, Some []).
 Proof. vm_compute. reflexivity. Qed.
@@ -85,30 +86,37 @@ Proof. vm_compute. reflexivity. Qed.
 (* recorded witnesses of two near-misses: the target opened before the namespace step; the written
    stream not flushed when the target is an `output=` URI kept by the caller *)
 Example C16_open_before_namespace_step_truncates :
-  run_save {| j_nbuild := 2; j_nenc := 0; j_nns := 1; j_own := true; j_new := [9] |}
+  run_save {| j_nbuild := 2; j_nenc := 0; j_nns := 1; j_nbytes := 0; j_own := true; j_new := [9] |}
            [SBuild; SOpen; SNs; SBuild; SWrite; SFlush; SClose] (Some 2%nat) (Some [1; 2; 3])
   = (Raised, Some []).
 Proof. vm_compute. reflexivity. Qed.
 
 Example C16_unflushed_output_is_empty :
-  run_save {| j_nbuild := 2; j_nenc := 2; j_nns := 0; j_own := false; j_new := [9] |}
-           [SBuild; SEncode; SOpen; SWrite; SClose] None (Some [1; 2; 3])
+  run_save {| j_nbuild := 2; j_nenc := 2; j_nns := 0; j_nbytes := 0; j_own := false; j_new := [9] |}
+           [SBuild; SEncode; SBytes; SOpen; SWrite; SClose] None (Some [1; 2; 3])
   = (Done, Some []).
+Proof. vm_compute. reflexivity. Qed.
+
+(* text turned into bytes only inside stream.write(...), i.e. after the target was opened *)
+Example C16_bytes_after_open_truncates :
+  run_save {| j_nbuild := 2; j_nenc := 2; j_nns := 0; j_nbytes := 2; j_own := true; j_new := [9] |}
+           [SBuild; SEncode; SOpen; SBytes; SWrite; SFlush; SClose] (Some 5%nat) (Some [1; 2; 3])
+  = (Raised, Some []).
 Proof. vm_compute. reflexivity. Qed.
 
 (* non-vacuity: faults that raise (encoder; namespace step; absent target), a fault-free save to a
    kept output URI, a uuid-mode save that assigns one id *)
 Example C16_witness :
-  run_save {| j_nbuild := 3; j_nenc := 3; j_nns := 0; j_own := true; j_new := [7; 7] |}
+  run_save {| j_nbuild := 3; j_nenc := 3; j_nns := 0; j_nbytes := 0; j_own := true; j_new := [7; 7] |}
            save_order_json (Some 4%nat) (Some [1; 2; 3])
     = (Raised, Some [1; 2; 3]) /\
-  run_save {| j_nbuild := 3; j_nenc := 0; j_nns := 1; j_own := true; j_new := [7; 7] |}
+  run_save {| j_nbuild := 3; j_nenc := 0; j_nns := 1; j_nbytes := 0; j_own := true; j_new := [7; 7] |}
            save_order_xmi (Some 3%nat) (Some [1; 2; 3])
     = (Raised, Some [1; 2; 3]) /\
-  run_save {| j_nbuild := 3; j_nenc := 0; j_nns := 1; j_own := true; j_new := [7; 7] |}
+  run_save {| j_nbuild := 3; j_nenc := 0; j_nns := 1; j_nbytes := 0; j_own := true; j_new := [7; 7] |}
            save_order_xmi (Some 2%nat) None
     = (Raised, None) /\
-  run_save {| j_nbuild := 3; j_nenc := 0; j_nns := 1; j_own := false; j_new := [7; 7] |}
+  run_save {| j_nbuild := 3; j_nenc := 0; j_nns := 1; j_nbytes := 0; j_own := false; j_new := [7; 7] |}
            save_order_xmi None (Some [1; 2; 3])
     = (Done, Some [7; 7]) /\
   save_model true (fun n => 100 + Z.of_nat n) 0
